@@ -6,9 +6,11 @@
 //! `cfg(libp2p_verif)` snapshot hook and compared with the Lean model `C47.step`.
 use std::{
     collections::HashMap,
+    future::Future,
+    pin::Pin,
     sync::{
         atomic::{AtomicBool, Ordering},
-        Arc,
+        Arc, Mutex,
     },
     task::{Context, Poll, Wake, Waker},
     time::Duration,
@@ -51,6 +53,34 @@ fn swarm_cfg() -> SwarmConfig {
     SwarmConfig::without_executor().with_idle_connection_timeout(Duration::from_secs(86_400))
 }
 
+type Task = Pin<Box<dyn Future<Output = ()> + Send>>;
+
+/// Executor that only collects the relay's connection tasks; the harness polls them itself, so
+/// it can schedule a connection's task (handler) and the `Swarm` (behaviour) separately —
+/// exactly the freedom a real multi-threaded runtime has.
+#[derive(Clone, Default)]
+struct ManualExec(Arc<Mutex<Vec<Option<Task>>>>);
+
+impl libp2p_swarm::Executor for ManualExec {
+    fn exec(&self, f: Task) {
+        self.0.lock().unwrap().push(Some(f));
+    }
+}
+
+const RACE_RESERVATION_SECS: u64 = 1000;
+
+/// which parts of the world a polling round touches
+#[derive(Clone, Copy)]
+struct Parts {
+    /// `None` = no relay connection task, `Some(usize::MAX)` = all, `Some(c)` = only connection `c`'s
+    tasks: Option<usize>,
+    swarm: bool,
+    /// `None` = no client, `Some(usize::MAX)` = all clients, `Some(c)` = only client `c`
+    clients: Option<usize>,
+}
+
+const ALL: Parts = Parts { tasks: Some(usize::MAX), swarm: true, clients: Some(usize::MAX) };
+
 #[derive(Clone, Copy, Debug)]
 pub struct Limits {
     max_res: usize,
@@ -83,6 +113,12 @@ struct World {
     circ_owner: HashMap<u64, (usize, ConnectionId)>,
     flag: Arc<Flag>,
     waker: Waker,
+    /// relay connection tasks when the relay runs on the manual executor (race cases)
+    tasks: Option<ManualExec>,
+    /// index = connection `c`: the relay task indices spawned for it
+    tasks_of: Vec<Vec<usize>>,
+    /// a timer created after the last accepted reservation, with the reservation's duration
+    probe: Option<futures_timer::Delay>,
 }
 
 const PEER_BASE: u8 = 10;
@@ -98,13 +134,17 @@ fn peer_idx(p: &PeerId, n: u8) -> String {
 
 impl World {
     fn new(l: Limits) -> World {
+        World::with_mode(l, false)
+    }
+
+    fn with_mode(l: Limits, manual: bool) -> World {
         let key = hcore::keypair(200);
         let relay_peer = key.public().to_peer_id();
         let transport = upgrade_transport(MemoryTransport::default().boxed(), &key);
         let cfg = relay::Config {
             max_reservations: l.max_res,
             max_reservations_per_peer: l.max_res_peer,
-            reservation_duration: Duration::from_secs(86_400),
+            reservation_duration: Duration::from_secs(if manual { RACE_RESERVATION_SECS } else { 86_400 }),
             reservation_rate_limiters: vec![],
             max_circuits: l.max_circ,
             max_circuits_per_peer: l.max_circ_peer,
@@ -112,7 +152,12 @@ impl World {
             max_circuit_bytes: 1 << 40,
             circuit_src_rate_limiters: vec![],
         };
-        let relay = Swarm::new(transport, relay::Behaviour::new(relay_peer, cfg), relay_peer, swarm_cfg());
+        let tasks = if manual { Some(ManualExec::default()) } else { None };
+        let scfg = match &tasks {
+            Some(ex) => SwarmConfig::with_executor(ex.clone()).with_idle_connection_timeout(Duration::from_secs(864_000)),
+            None => swarm_cfg(),
+        };
+        let relay = Swarm::new(transport, relay::Behaviour::new(relay_peer, cfg), relay_peer, scfg);
         let flag = Arc::new(Flag(AtomicBool::new(false)));
         let waker = Waker::from(flag.clone());
         let mut w = World {
@@ -125,6 +170,9 @@ impl World {
             circ_owner: HashMap::new(),
             flag,
             waker,
+            tasks,
+            tasks_of: vec![],
+            probe: None,
         };
         w.relay.listen_on("/memory/0".parse().unwrap()).unwrap();
         w.quiesce();
@@ -145,16 +193,53 @@ impl World {
 
     /// poll every swarm until a whole round makes no progress and nobody was woken
     fn quiesce(&mut self) {
+        self.quiesce_parts(ALL)
+    }
+
+    /// the same, restricted to some parts of the world
+    fn quiesce_parts(&mut self, parts: Parts) {
         let waker = self.waker.clone();
         let mut cx = Context::from_waker(&waker);
         let mut idle = 0;
         for _round in 0..100_000 {
             let mut progressed = self.flag.0.swap(false, Ordering::SeqCst);
-            while let Poll::Ready(Some(ev)) = self.relay.poll_next_unpin(&mut cx) {
-                self.relay_events.push(ev);
-                progressed = true;
+            if let (Some(sel), Some(ex)) = (parts.tasks, &self.tasks) {
+                {
+                    // take the tasks out while polling: a task may spawn (push) another one
+                    let n = ex.0.lock().unwrap().len();
+                    for i in 0..n {
+                        if sel != usize::MAX && !self.tasks_of.get(sel).is_some_and(|v| v.contains(&i)) {
+                            continue;
+                        }
+                        let t = ex.0.lock().unwrap()[i].take();
+                        if let Some(mut t) = t {
+                            if t.as_mut().poll(&mut cx).is_pending() {
+                                ex.0.lock().unwrap()[i] = Some(t);
+                            } else {
+                                progressed = true;
+                            }
+                        }
+                    }
+                    if ex.0.lock().unwrap().len() != n {
+                        progressed = true;
+                    }
+                }
             }
-            for c in self.clients.iter_mut() {
+            if parts.swarm {
+                while let Poll::Ready(Some(ev)) = self.relay.poll_next_unpin(&mut cx) {
+                    self.relay_events.push(ev);
+                    progressed = true;
+                }
+            }
+            for (i, c) in self.clients.iter_mut().enumerate() {
+                let on = match parts.clients {
+                    None => false,
+                    Some(usize::MAX) => true,
+                    Some(k) => k == i,
+                };
+                if !on {
+                    continue;
+                }
                 while let Poll::Ready(Some(ev)) = c.swarm.poll_next_unpin(&mut cx) {
                     c.events.push(ev);
                     progressed = true;
@@ -231,6 +316,7 @@ impl World {
         let transport = upgrade_transport(OrTransport::new(rt, MemoryTransport::default()).boxed(), &key);
         let swarm = Swarm::new(transport, beh, id, swarm_cfg());
         let c = self.clients.len();
+        let tasks_before = self.tasks.as_ref().map(|ex| ex.0.lock().unwrap().len()).unwrap_or(0);
         self.clients.push(Client { peer: p, swarm, direct: None, open: false, has_res: false, events: vec![] });
         self.clear_events();
         let opts = DialOpts::peer_id(self.relay_peer)
@@ -239,6 +325,8 @@ impl World {
             .build();
         self.clients[c].swarm.dial(opts).map_err(|e| format!("dial:{e:?}"))?;
         self.quiesce();
+        let tasks_after = self.tasks.as_ref().map(|ex| ex.0.lock().unwrap().len()).unwrap_or(0);
+        self.tasks_of.push((tasks_before..tasks_after).collect());
         let direct = self.clients[c].events.iter().find_map(|e| match e {
             SwarmEvent::ConnectionEstablished { connection_id, .. } => Some(*connection_id),
             _ => None,
@@ -283,6 +371,10 @@ impl World {
         }
         if out.iter().any(|o| o.starts_with("acc")) {
             self.clients[c].has_res = true;
+            if self.tasks.is_some() {
+                // created after the handler's reservation timer, same duration: fires not earlier
+                self.probe = Some(futures_timer::Delay::new(Duration::from_secs(RACE_RESERVATION_SECS)));
+            }
         }
         if out.is_empty() {
             "none".into()
@@ -359,6 +451,77 @@ impl World {
         (if out.is_empty() { "none".into() } else { out.join("+") }, pick)
     }
 
+    /// race step 1: the client sends a RESERVE; only the relay's connection tasks (handlers)
+    /// and that client run — the relay's `Swarm` (behaviour) does not see the event yet
+    fn rbegin(&mut self, c: usize) -> String {
+        self.clear_events();
+        let addr = self.relay_addr.clone().with(Protocol::P2p(self.relay_peer)).with(Protocol::P2pCircuit);
+        if let Err(e) = self.clients[c].swarm.listen_on(addr) {
+            return format!("err:listen:{}", format!("{e:?}").replace(' ', "_"));
+        }
+        self.quiesce_parts(Parts { tasks: Some(c), swarm: false, clients: Some(c) });
+        "sent".into()
+    }
+
+    /// race step 2: the reservation duration passes; only the relay's connection tasks run
+    fn expire(&mut self) -> String {
+        hcore::warp(Duration::from_secs(RACE_RESERVATION_SECS + 1));
+        if let Some(probe) = self.probe.as_mut() {
+            let w = Waker::noop();
+            let mut cx = Context::from_waker(w);
+            let mut fired = false;
+            for _ in 0..5000 {
+                let _kick = futures_timer::Delay::new(Duration::from_millis(1));
+                if Pin::new(&mut *probe).poll(&mut cx).is_ready() {
+                    fired = true;
+                    break;
+                }
+                std::thread::sleep(Duration::from_millis(1));
+            }
+            if !fired {
+                return "err:timer-did-not-fire".into();
+            }
+        }
+        self.probe = None;
+        self.quiesce_parts(Parts { tasks: Some(usize::MAX), swarm: false, clients: None });
+        "ok".into()
+    }
+
+    /// race step 3: the relay's `Swarm` processes the handler events queued so far
+    fn rdeliver(&mut self) -> String {
+        self.clear_events();
+        self.quiesce_parts(Parts { tasks: None, swarm: true, clients: None });
+        let mut out = vec!["delivered".to_string()];
+        for e in &self.relay_events {
+            if let SwarmEvent::Behaviour(ev) = e {
+                match ev {
+                    relay::Event::ReservationTimedOut { .. } => out.push("timedout".into()),
+                    other => out.push(format!("other:{}", format!("{other:?}").split(' ').next().unwrap_or("?"))),
+                }
+            }
+        }
+        out.join("+")
+    }
+
+    /// race step 4: handlers and behaviour run on (no client): the pending requests complete
+    fn rend(&mut self) -> String {
+        self.clear_events();
+        self.quiesce_parts(Parts { tasks: Some(usize::MAX), swarm: true, clients: None });
+        let mut out = vec![];
+        for e in &self.relay_events {
+            if let SwarmEvent::Behaviour(ev) = e {
+                match ev {
+                    relay::Event::ReservationReqAccepted { renewed, .. } => out.push(format!("acc{}", *renewed as u8)),
+                    relay::Event::ReservationReqDenied { .. } => out.push("deny".to_string()),
+                    relay::Event::ReservationTimedOut { .. } => out.push("timedout".to_string()),
+                    other => out.push(format!("other:{}", format!("{other:?}").split(' ').next().unwrap_or("?"))),
+                }
+            }
+        }
+        out.sort();
+        if out.is_empty() { "none".into() } else { out.join("+") }
+    }
+
     fn closecirc(&mut self, id: u64) -> String {
         self.clear_events();
         match self.circ_owner.remove(&id) {
@@ -394,6 +557,10 @@ enum Op {
     Circuit(usize, u8),
     CloseCirc(u64),
     CloseConn(usize),
+    RBegin(usize),
+    Expire,
+    RDeliver,
+    REnd,
 }
 
 /// executes one op on the real relay and prints its op/impl lines
@@ -448,6 +615,28 @@ fn exec_inner(w: &mut World, out: &mut Out, op: &Op, npeers: u8) {
         Op::CloseCirc(id) => {
             let r = hcore::guarded(|| w.closecirc(*id));
             out.op(&format!("closecirc {id}"));
+            match r {
+                Ok(o) => out.imp(&format!("{o} {}", w.snapshot(npeers))),
+                Err(m) => out.imp(&format!("panic {m}")),
+            }
+        }
+        Op::RBegin(c) => {
+            let p = w.clients[*c].peer;
+            let renewed = w.clients[*c].has_res as u8;
+            let r = hcore::guarded(|| w.rbegin(*c));
+            out.op(&format!("rbegin {p} {c} {renewed}"));
+            match r {
+                Ok(o) => out.imp(&format!("{o} {}", w.snapshot(npeers))),
+                Err(m) => out.imp(&format!("panic {m}")),
+            }
+        }
+        Op::Expire | Op::RDeliver | Op::REnd => {
+            let (name, r) = match op {
+                Op::Expire => ("expire", hcore::guarded(|| w.expire())),
+                Op::RDeliver => ("rdeliver", hcore::guarded(|| w.rdeliver())),
+                _ => ("rend", hcore::guarded(|| w.rend())),
+            };
+            out.op(name);
             match r {
                 Ok(o) => out.imp(&format!("{o} {}", w.snapshot(npeers))),
                 Err(m) => out.imp(&format!("panic {m}")),
@@ -590,6 +779,43 @@ fn directed_case(out: &mut Out, idx: u64, l: Limits, which: u8) {
     out.end();
 }
 
+/// A reservation expires while its renewal is in flight (handler has reported the request, the
+/// behaviour's answer has not come back yet).  The relay runs on the manual executor so that the
+/// connection tasks and the `Swarm` can be scheduled separately.
+fn race_case(out: &mut Out, idx: u64, l: Limits, which: u8) {
+    let npeers = 4u8;
+    out.case(idx, &format!("race{which} nt=1 {}", header(l, npeers)));
+    let mut w = World::with_mode(l, true);
+    let ops: Vec<Op> = match which {
+        // the renewing connection is the peer's only one
+        0 => vec![Op::Conn(0), Op::Reserve(0), Op::RBegin(0), Op::Expire, Op::RDeliver, Op::REnd],
+        // a second connection of the same peer reserves meanwhile
+        1 => vec![
+            Op::Conn(0), Op::Conn(0), Op::Reserve(0), Op::RBegin(0), Op::Expire, Op::RDeliver, Op::RBegin(1),
+            Op::RDeliver, Op::REnd,
+        ],
+        // other peers fill the total meanwhile
+        2 => vec![
+            Op::Conn(0), Op::Conn(0), Op::Conn(1), Op::Conn(2), Op::Reserve(0), Op::RBegin(0), Op::Expire,
+            Op::RDeliver, Op::RBegin(2), Op::RDeliver, Op::RBegin(3), Op::RDeliver, Op::REnd,
+        ],
+        // no expiry: an ordinary renewal and a new reservation through the same split schedule
+        _ => vec![
+            Op::Conn(0), Op::Conn(1), Op::Reserve(0), Op::RBegin(0), Op::RDeliver, Op::RBegin(1), Op::RDeliver, Op::REnd,
+        ],
+    };
+    for op in &ops {
+        let ok = match op {
+            Op::Reserve(c) | Op::RBegin(c) => *c < w.clients.len() && w.clients[*c].open,
+            _ => true,
+        };
+        if ok {
+            exec(&mut w, out, op, npeers);
+        }
+    }
+    out.end();
+}
+
 pub fn run(args: &Args, out: &mut Out) {
     if let Some(cases) = args.replay_cases() {
         for (i, (hdr, ops)) in cases.iter().enumerate() {
@@ -598,7 +824,8 @@ pub fn run(args: &Args, out: &mut Out) {
             let l = Limits { max_res: n(3), max_res_peer: n(4), max_circ: n(5), max_circ_peer: n(6) };
             let npeers = n(7) as u8;
             out.case(i as u64, &format!("replay nt=1 {}", header(l, npeers)));
-            let mut w = World::new(l);
+            let manual = ops.iter().any(|o| o[0] == "rbegin");
+            let mut w = World::with_mode(l, manual);
             // connection numbers of the file -> connection numbers of this run
             let mut cmap: HashMap<usize, usize> = HashMap::new();
             for op in ops {
@@ -632,6 +859,14 @@ pub fn run(args: &Args, out: &mut Out) {
                             exec(&mut w, out, &Op::CloseConn(*c), npeers);
                         }
                     }
+                    "rbegin" => {
+                        if let Some(c) = cmap.get(&u(2)).filter(|c| w.clients[**c].open) {
+                            exec(&mut w, out, &Op::RBegin(*c), npeers);
+                        }
+                    }
+                    "expire" if manual => exec(&mut w, out, &Op::Expire, npeers),
+                    "rdeliver" if manual => exec(&mut w, out, &Op::RDeliver, npeers),
+                    "rend" if manual => exec(&mut w, out, &Op::REnd, npeers),
                     _ => {}
                 }
             }
@@ -652,6 +887,12 @@ pub fn run(args: &Args, out: &mut Out) {
                 directed_case(out, idx, l, which);
                 idx += 1;
             }
+        }
+    }
+    for which in 0..4u8 {
+        for (max_res, per_peer) in [(4usize, 1usize), (2, 1), (2, 2), (4, 2)] {
+            race_case(out, idx, Limits { max_res, max_res_peer: per_peer, max_circ: 4, max_circ_peer: 2 }, which);
+            idx += 1;
         }
     }
     let n = args.n(150, 3000);
